@@ -95,7 +95,8 @@ func randomOp(r *gen.Rng, w, h int) string {
 	case k < 50:
 		return fmt.Sprintf("c0 %d", gen.Pick(r, []int{10, 10, 11, 12}))
 	case k < 55:
-		return "esc " + hx.Hex(gen.Pick(r, []string{"D", "E", "M", "7", "8"}))
+		// round 3: RIS now and then
+		return "esc " + hx.Hex(gen.Pick(r, []string{"D", "E", "M", "7", "8", "D", "E", "M", "7", "8", "D", "E", "M", "7", "8", "c"}))
 	case k < 56:
 		// round 3: OSC 8 hyperlinks (open with / without parameters, close)
 		return "osc " + hx.Hex(gen.Pick(r, []string{"8;;http://a", "8;id=1;http://b", "8;;", "8;id=2;", "8;;x;y"})) + " 0"
